@@ -19,7 +19,7 @@ import random
 
 import numpy as np
 
-from sim import interp, gen
+from sim import interp, gen, direct
 from sim import world as W
 from sim.runner import subseed, digest
 
@@ -433,16 +433,29 @@ def check_case(case, props):
                 stats['recovery_checks'] += 1
                 after_failure = False
             xtol = 3e-4 if cls in ('MILP', 'MISOCP') else tol * 10      # engines' default relative MIP gap is 1e-4
-            for sv2, o2 in best.items():
+            disagreed = False
+            for sv2, o2 in list(best.items()):
                 stats['cross_checks'] += 1
                 if abs(o2 - st['obj']) > xtol * (1 + abs(o2)):
-                    viol('interfaces-disagree', 'same program: %s gives %.9g, %s gives %.9g (class %s)'
-                         % (sv2, o2, sv, st['obj'], cls), [eng, ENGINE_OF[sv2]])
+                    disagreed = True
+                    # arbiter: the same engines called directly on the snapshot (independent translation).  An interface
+                    # is at fault only if it deviates from its own engine called directly on the same program.
+                    guilty = []
+                    for svx, ox in ((sv, st['obj']), (sv2, o2)):
+                        try:
+                            dx = direct.DIRECT[ENGINE_OF[svx]](snap)
+                        except Exception:
+                            dx = None
+                        if dx is not None and abs(dx * m.sign - ox) > xtol * (1 + abs(ox)):
+                            guilty.append('%s via RSOME %.9g, its engine called directly on the snapshot %.9g' % (svx, ox, dx * m.sign))
+                    if guilty:
+                        viol('interfaces-disagree', 'same program (class %s): %s gives %.9g, %s gives %.9g; %s'
+                             % (cls, sv2, o2, sv, st['obj'], '; '.join(guilty)), [eng, ENGINE_OF[sv2]])
+                    else:
+                        inconc('engines_disagree_among_themselves:%s/%s' % (ENGINE_OF[sv2], eng))
                     break
-            else:
+            if not disagreed:
                 best[sv] = st['obj']
-                continue
-            break
         # the compiled program handed to the interfaces must still be the snapshot
         try:
             f2 = m.do_math()
